@@ -14,7 +14,7 @@ MANIFEST = {
             "of A are checked on every run.",
     "note": "FLX rounding model (no overflow/underflow). Complex precisions: certificate with the relaxed constant 4*gamma(3n) and "
             "rational bounds of the moduli. Kernels covered by the any-order quantification + exact certificate. Trusted: Coq "
-            "kernel, Reals axioms as printed, hooks, python exact certificate.",
+            "kernel, Reals axioms as printed, hooks, python exact certificate. Input families include the 2-D kernel segment lengths and fill that reaches a column through an earlier column of its own panel (panelfill).",
     "technique": "Coq proof (backward stability of LU + substitution in any summation order) + exact certificate on real driver output",
 }
 
